@@ -209,6 +209,7 @@ func worker(t *testing.T) {
 		}
 	}
 	out.WallS = time.Since(start).Seconds()
+	_ = os.Remove(filepath.Join(ScratchRoot(), fmt.Sprintf("verifsim-%d", os.Getpid())))
 	if *fOut != "" {
 		b, _ := json.Marshal(out)
 		if err := os.WriteFile(*fOut, b, 0o644); err != nil {
@@ -463,7 +464,8 @@ func master() int {
 	if nw <= 0 {
 		nw = runtime.NumCPU()
 	}
-	tmp, err := os.MkdirTemp(ScratchRoot(), "verifmaster-")
+	cleanStaleScratch()
+	tmp, err := os.MkdirTemp(ScratchRoot(), fmt.Sprintf("verifmaster-%d-", os.Getpid()))
 	if err != nil {
 		fmt.Fprintln(os.Stderr, err)
 		return 2
@@ -486,7 +488,44 @@ func master() int {
 			var eb bytes.Buffer
 			cmd.Stderr = &eb
 			cmd.Stdout = &eb
-			err := cmd.Run()
+			// Real-time watchdog (outside every bubble): a worker whose current
+			// seed has not changed for hangLimit is looping inside the code
+			// under test (or blocked in an uninstrumented primitive). It is
+			// killed and the seed reported as a "hang" violation with its plan.
+			hung := ""
+			if err := cmd.Start(); err != nil {
+				errs[w] = err.Error()
+				return
+			}
+			doneCh := make(chan error, 1)
+			go func() { doneCh <- cmd.Wait() }()
+			var err error
+			lastCur, lastChange := "", time.Now()
+		wait:
+			for {
+				select {
+				case err = <-doneCh:
+					break wait
+				case <-time.After(2 * time.Second):
+					cur, _ := os.ReadFile(of + ".cur")
+					if string(cur) != lastCur {
+						lastCur, lastChange = string(cur), time.Now()
+					} else if lastCur != "" && time.Since(lastChange) > hangLimit() {
+						hung = strings.TrimSpace(lastCur)
+						_ = cmd.Process.Kill()
+						err = <-doneCh
+						break wait
+					}
+				}
+			}
+			if hung != "" {
+				if sd, perr := strconv.ParseUint(hung, 10, 64); perr == nil {
+					crashMu.Lock()
+					crashes = append(crashes, crashRec{seed: sd, site: "", trace: fmt.Sprintf("no progress for %v of real time while executing this plan; worker killed", hangLimit())})
+					crashMu.Unlock()
+				}
+				return
+			}
 			b, rerr := os.ReadFile(of)
 			if rerr != nil {
 				cur, _ := os.ReadFile(of + ".cur")
@@ -575,7 +614,12 @@ func master() int {
 		plan := sim.Generate(*fProp, *fTier, c.seed)
 		plan.Sim, plan.Prop, plan.Tier, plan.Seed = sim.Name(), *fProp, *fTier, c.seed
 		sig := "crash:" + c.site
-		v := Violation{Prop: *fProp, Sig: sig, Msg: "the process died with a Go panic inside the code under test while executing this plan:\n" + c.trace}
+		msg := "the process died with a Go panic inside the code under test while executing this plan:\n" + c.trace
+		if c.site == "" {
+			sig = "hang"
+			msg = c.trace
+		}
+		v := Violation{Prop: *fProp, Sig: sig, Msg: msg}
 		sigCount[sig]++
 		if _, ok := bySig[sig]; !ok {
 			bySig[sig] = ViolRec{Plan: plan, V: v}
@@ -601,7 +645,7 @@ func master() int {
 	for _, s := range sigs {
 		rec := bySig[s]
 		rec.Plan.Expect = &rec.V
-		if strings.HasPrefix(s, "crash:") {
+		if strings.HasPrefix(s, "crash:") || s == "hang" {
 			// cannot be minimised in-process (every execution kills the process):
 			// the replay file is the full plan; replaying it crashes the same way
 			name := fmt.Sprintf("%s-%016x-%d.json", rec.V.Prop, Mix(0, hashString(s)), rec.Plan.Seed)
@@ -611,8 +655,13 @@ func master() int {
 			c := exec.Command(selfExe(), "-vmode=replay", "-plan="+dst)
 			var b bytes.Buffer
 			c.Stdout, c.Stderr = &b, &b
-			_ = c.Run()
-			reproduced := crashSite(b.String()) == strings.TrimPrefix(s, "crash:")
+			if s != "hang" {
+				_ = c.Run()
+			}
+			reproduced := s != "hang" && crashSite(b.String()) == strings.TrimPrefix(s, "crash:")
+			if s == "hang" {
+				reproduced = false // not re-executed: it would hang again (replay it by hand with a timeout)
+			}
 			summ := map[string]any{"signature": s, "message": firstLine(rec.V.Msg), "occurrences": sigCount[s], "replay": dst, "replay_reproduces": reproduced}
 			if k, ok := isKnown(rec.V.Prop, s); ok {
 				fmt.Printf("KNOWN-FINDING: property=%s %s (signature %s, replay=%s)\n", rec.V.Prop, k.Text, s, dst)
@@ -751,6 +800,48 @@ func master() int {
 		return 2
 	}
 	return 0
+}
+
+// cleanStaleScratch removes scratch directories left behind by processes that
+// no longer exist (killed workers, interrupted masters).
+func cleanStaleScratch() {
+	ents, err := os.ReadDir(ScratchRoot())
+	if err != nil {
+		return
+	}
+	for _, e := range ents {
+		n := e.Name()
+		var pid int
+		switch {
+		case strings.HasPrefix(n, "verifsim-"):
+			pid, _ = strconv.Atoi(strings.TrimPrefix(n, "verifsim-"))
+		case strings.HasPrefix(n, "verifmaster-"):
+			f := strings.Split(strings.TrimPrefix(n, "verifmaster-"), "-")
+			if len(f) == 2 {
+				pid, _ = strconv.Atoi(f[0])
+			}
+		case strings.HasPrefix(n, "verifself-"):
+			continue
+		default:
+			continue
+		}
+		if pid <= 0 {
+			continue
+		}
+		if _, err := os.Stat(fmt.Sprintf("/proc/%d", pid)); os.IsNotExist(err) {
+			_ = os.RemoveAll(filepath.Join(ScratchRoot(), n))
+		}
+	}
+}
+
+// hangLimit is the real time a single run may take before the watchdog
+// declares it hung (VERIF_HANG_S overrides; generous because the machine may
+// be heavily loaded).
+func hangLimit() time.Duration {
+	if v, err := strconv.Atoi(os.Getenv("VERIF_HANG_S")); err == nil && v > 0 {
+		return time.Duration(v) * time.Second
+	}
+	return 240 * time.Second
 }
 
 type crashRec struct {
